@@ -73,6 +73,12 @@ REQUIRED = {
 # ------------------------------------------------------------------ oracles
 
 
+def is_boolean(x):
+    """a Python bool or a numpy bool (positions sampled with rng.integers make Area.contains return numpy booleans)"""
+    import numpy as np
+    return isinstance(x, (bool, np.bool_))
+
+
 def conforms_state(shape, types, s):
     """independent definition of state-space membership (from the statement)"""
     why = []
@@ -166,7 +172,7 @@ def check_step(ctx, env, decl, state, action, label, payload_fn, tag):
     if not isinstance(reward, float) or not math.isfinite(reward):
         ctx.violation('step_reward', 'reward.not_finite_float',
                       f'{label}: reward {reward!r} ({type(reward).__name__}) is not a finite float', 'step', payload_fn())
-    if type(done) is not bool:
+    if not is_boolean(done):
         ctx.violation('step_done', 'done.not_bool', f'{label}: termination flag {done!r} ({type(done).__name__})',
                       'step', payload_fn())
     if enc.es(state) != before:
@@ -235,7 +241,7 @@ def predicate_probes(ctx, env, decl, state, label, payload_fn):
         ok, got = call_real(env.state_space.contains, s)
         ctx.hit('predicate.state')
         ctx.cat('predicate.state.' + name)
-        if not ok or bool(got) != want or type(got) is not bool:
+        if not ok or not is_boolean(got) or bool(got) != want:
             ctx.violation('predicate_state', 'predicate.state.' + name,
                           f'{label}: StateSpace.contains -> {got!r} but conformance is {want} for probe {name}',
                           'predicate', payload_fn())
@@ -513,7 +519,7 @@ def drive_shipped(ctx, name, data, seed, policy_name, steps, debug):
             break
         if not isinstance(reward, float) or not math.isfinite(reward):
             ctx.violation('step_reward', 'reward.not_finite_float', f'{label}: reward {reward!r}', 'shipped', payload())
-        if type(done) is not bool:
+        if not is_boolean(done):
             ctx.violation('step_done', 'done.not_bool', f'{label}: flag {done!r}', 'shipped', payload())
         state = nxt
         if done:
@@ -541,6 +547,8 @@ def anchored():
 
 
 def run(ctx):
+    from .. import custom_objects
+    custom_objects.enable(cleats=True)  # user-defined object types join the generators' pool (flags, not types, must decide)
     n_comp = ctx.pick(96, 4000)
     n_states = ctx.pick(64, 120)
     with reach(ctx, anchored()):
@@ -568,6 +576,8 @@ def run(ctx):
 
 
 def replay(ctx, kind, payload):
+    from .. import custom_objects
+    custom_objects.enable(cleats=True)
     if kind in ('step', 'predicate', 'rejected') and 'comp_seed' in payload:
         rng = gen.rng_for('C01comp', payload['comp_seed'])
         comp = workloads.Composition(rng, dense=(payload['comp_seed'] % 3 == 0))
